@@ -1046,9 +1046,20 @@ class Variable(CanBehaveLikeAVariable[T]):
                 self._is_false_ = is_false = not bool(sources[self._id_])
             yield OperationResult(sources, is_false, self)
         elif self._domain_:
+            # a variable or a constant used as a condition (and_(cond, False), entity(flag, flag)) is read by its truth
+            # value; everywhere else (an operand, a selected or a quantified variable) a value is just a value
+            is_condition = (
+                isinstance(parent, LogicalOperator)
+                and not (
+                    isinstance(parent, QuantifiedConditional)
+                    and parent.variable is self
+                )
+            ) or (isinstance(parent, QueryObjectDescriptor) and parent._child_ is self)
             for v in self._domain_:
                 yield OperationResult(
-                    {**sources, self._id_: HashedValue(v)}, False, self
+                    {**sources, self._id_: HashedValue(v)},
+                    is_condition and not bool(v),
+                    self,
                 )
         elif self._should_be_instantiated_:
             yield from self._instantiate_using_child_vars_and_yield_results_(sources)
